@@ -28,12 +28,26 @@ def iterable_iter(ev, recv, args, kwargs, node):
 iterable_iter.mods = ("it",)
 
 
+REST = z3.Function("rest_from", z3.IntSort(), z3.StringSort())
+# rest_from(p) = the concatenation of items[p:], defined by recursion on len(items) - p:
+#   rest_from(p) == b""                            for p >= len(items)
+#   rest_from(p) == items[p] + rest_from(p + 1)    for 0 <= p < len(items)
+# Only ground instances of these two defining equations are used (added where an iterator is advanced / exhausted),
+# so no quantifier reaches the solver.  The body of the inner iterable is rest_from(0).
+
+
+def _unfold(st, items, pos):
+    st.assume(z3.Implies(z3.And(pos >= 0, pos < items.length), REST(pos) == z3.Concat(items.cols[0][pos], REST(pos + 1))))
+    st.assume(z3.Implies(pos >= items.length, REST(pos) == z3.StringVal("")))
+
+
 def iterator_next(ev, recv, args, kwargs, node):
     st = ev.st
     it = st.obj(recv)
     src = st.obj(it.fields["src"])
     items = st.obj(src.fields["items"])
     pos = it.fields["pos"].t
+    _unfold(st, items, pos)
     if not st.decide(pos < items.length):
         raise PyRaise("StopIteration", None, getattr(node, "lineno", 0))
     it.fields["pos"] = VInt(pos + 1)
@@ -45,14 +59,14 @@ iterator_next.mods = ()
 
 def relay_yield(ev, v, node):
     st = ev.st
-    outs = st.obj(st.ghost["outs"])
-    ev.list_append(outs, v)
+    st.ghost["outb"] = VStr(z3.Concat(st.ghost["outb"].t, v.t), True)
+    g = st.obj(st.ghost["it"])
+    g.fields["n_chunks"] = VInt(g.fields["n_chunks"].t + 1)
 
 
 def relay_yield_from(ev, v, node):
     """yield from <iterator or iterable>: every remaining item, in order"""
     st = ev.st
-    outs = st.obj(st.ghost["outs"])
     o = st.obj(v)
     if o.cls == "Iterable":
         v = iterable_iter(ev, v, [], {}, node)
@@ -60,50 +74,53 @@ def relay_yield_from(ev, v, node):
     src = st.obj(o.fields["src"])
     items = st.obj(src.fields["items"])
     pos = o.fields["pos"].t
-    # outs' = outs ++ items[pos:]
-    from pyvc.builtins import list_concat
-    from pyvc.engine import mk_quant
-    n_rest = z3.If(items.length - pos < 0, 0, items.length - pos)
-    name = st.run.fresh_name("rest")
-    col = z3.Array(name, z3.IntSort(), z3.StringSort())
-    j = z3.Int(st.run.fresh_name("rj"))
-    st.assume(mk_quant("forall", [j], col[j] == items.cols[0][j + pos], patterns=[col[j]]))
-    rest = st.alloc(ListObj(n_rest, [col], Bytes))
-    r = list_concat(ev, st.ghost["outs"], rest)
-    ro = st.obj(r)
-    outs.length, outs.cols = ro.length, ro.cols
+    _unfold(st, items, pos)
+    st.ghost["outb"] = VStr(z3.Concat(st.ghost["outb"].t, REST(pos)), True)
     o.fields["pos"] = VInt(z3.If(pos > items.length, pos, items.length))
 
 
-def generator_call_model(ev, fv, args, kwargs, node):
-    return None
+def _setup(ev):
+    """ghost initialisation: nothing emitted yet; with a concrete item count (bounded refuter) rest_from is unfolded
+    completely so that models are concrete"""
+    st = ev.st
+    st.ghost["outb"] = VStr(b"")
+    it = ev.frame.lookup("iterable")
+    items = st.obj(st.obj(it).fields["items"])
+    n = z3.simplify(items.length)
+    if z3.is_int_value(n):
+        for p in range(n.as_long() + 1):
+            _unfold(st, items, z3.IntVal(p))
+    else:
+        _unfold(st, items, z3.IntVal(0))
 
 
-def _empty_outs(ev):
-    """ghost initialisation: the output list starts empty"""
-    o = ev.st.obj(ev.st.ghost["outs"])
-    o.length = z3.IntVal(0)
+def _m2i(m):
+    n = max(0, min(int(m.get("iterable.items.len", 0)), 8))
+    return {"items": [m.get("iterable.items[%d]" % i, "") for i in range(n)], "reiterable": bool(m.get("iterable.reiterable", True))}
 
 
 ENSURE_NEXT = Contract(
     id="wsgi.ensure_next", file=WM, qualname="ensure_next", props=["C20"],
     params={"iterable": ObjT("Iterable", items=ITEMS, reiterable=Bool)},
-    ghosts={"outs": ITEMS, "it": ObjT("ItGhost", n_iter=Int)},
-    requires=["it.n_iter == 0"],
-    setup=lambda ev: _empty_outs(ev),
+    ghosts={"outb": Bytes, "it": ObjT("ItGhost", n_iter=Int, n_chunks=Int)},
+    requires=["it.n_iter == 0", "it.n_chunks == 0"],
+    setup=_setup, ufuncs={"rest_from": ([Int], Bytes)},
     stub_methods={("Iterable", "__iter__"): iterable_iter, ("Iterator", "__next__"): iterator_next},
-    on_yield=relay_yield, on_yield_from=relay_yield_from, yield_mods=("outs",),
-    ghost_modifies=["outs", "it"], frame_check=False,
+    on_yield=relay_yield, on_yield_from=relay_yield_from, yield_mods=("outb", "it"),
+    ghost_modifies=["outb", "it"], frame_check=False,
     raises={},
     ensures={
-        # what the returned iterable yields (the nested generator is run to completion: A-gen-eager) is exactly the
-        # inner application's items: each once, in order - also for lists/tuples that can be iterated again
-        "relays_exactly": "outs == iterable.items",
+        # the statement: "the same body bytes as the bare application".  What the returned iterable yields (the nested
+        # generator is run to completion: A-gen-eager) concatenates to exactly the inner application's body - also for
+        # lists/tuples that can be iterated again.  (Chunk boundaries are not part of the statement.)
+        "relays_body_bytes": "outb == rest_from(0)",
     },
-    canaries={"drops_all": "len(outs) == 0"},
+    canaries={"drops_all": "outb == b''"},
     assumptions=["A-gen-eager"],
+    model_to_inputs=_m2i, native=("c20", "replay_ensure_next"),
     notes="the inner body iterable is abstract: a finite item list that is either re-iterable (list/tuple: every __iter__() "
-          "starts again) or one-shot (generator); the returned generator's output is collected on a ghost list",
+          "starts again) or one-shot (generator); the bytes produced by the returned iterable are collected on a ghost string; "
+          "rest_from(p) is the concatenation of items[p:] (ground instances of its recursive definition only)",
 )
 
 
